@@ -204,6 +204,31 @@ CHECKS = {
    note=TB + "FsmTable.run is my reading of the GTF engine contract (validated against libgraphite2 in the shaping checks). Programs quantifier is sampled by the generator; glyph-string quantifier is discharged by the theorem.",
    design="4/C02"),
 }
+# later amendments of the texts above (old fragment -> new fragment); every old fragment must be present
+AMENDS = {'C02': [('text', 'a rejection triggers a product search for a concrete glyph string on which table and rules differ.', 'a rejection triggers a product search for a concrete glyph string on which table and rules differ. One program in eight has optional items (context groups, `cls?` on the left-hand side, groups in the body) and is first expanded into its alternatives by the model of the expansion proved equal to the specification (C07).')],
+ 'C06': [('text', 'computed from the independent IR, ruleMap ascending.', "computed from the independent IR, ruleMap ascending. One program in six has rules of different leading-context lengths whose actions and constraints read other items (@n, also inside ?:): the code in the font is decompiled and every slot reference must still name the rule's own item after the ANY padding (AdjustSlotRefsForPreAnys).")],
+ 'C04': [('text', "(nesting, ranges, late '+=', '&=', '-=')", '(nesting, ranges, late \'+=\', \'&=\', \'-=\'; glyph lists written as glyphid() or through the cmap as codepoint(\'c\'..\'f\'), codepoint("cdef"), unicode(a..b), U+xxxx..U+yyyy)')],
+ 'C03': [('text', 'never meets an unknown opcode or truncated operand and ends in a return,', 'never meets an unknown opcode or truncated operand and ends in a return (the executable checker additionally requires exactly one value on the stack at the return),')],
+ 'C05': [('note', 'Not covered yet: m-unit scaling, glyph metrics/point()/box() in values,', "Scaled numbers (m / M suffix with a global MUnits) are generated and expected with the compiler's float arithmetic. Not covered yet: glyph metrics/point()/box() in values,")],
+ 'C10': [('text', 'Tie: 33 single-fault injections', 'Tie: 40 single-fault injections'),
+  ('text', 'incl. slot references to inserted items in component references, attribute values and constraints)', 'incl. slot references to inserted items and to line-break items in selectors, associations, component references, attribute values and constraints, item number 0 with and without ANY padding)')],
+ 'C11': [('text', 'on a corpus of 33 past failures,', 'on a corpus of 46 past failures (incl. preprocessor arithmetic: division by zero in skipped operands, INT_MIN / -1, fatal buffer overflows; the death of gdlpp counts as a crash),')],
+ 'C12': [('text', 'fifteen program families (', "nineteen program families (padded rule slots (the 64-slot limit reached through another rule's leading context; above it the program MUST be rejected), script tags around 255/256, justification attribute ids beyond one byte (many ligature components), glyph-attribute count around 65535/65536, ")],
+ 'C13': [('text', 'rejected programs with syntax / semantic / preprocessor errors, + suite programs)', "rejected programs with syntax / semantic / preprocessor errors, a program built on gdlpp's predefined macros, + suite programs)"),
+  ('note', 'wall-clock dependence is not perturbed.', 'wall-clock dependence is perturbed only by one run a few seconds later (enough for a time-of-day macro, not for a date).')],
+ 'C14': [('text', '(1-35 passes, insertion-first/deletion/context-only rules, explicit passKeySlot, ANY)', '(1-35 passes, insertion-first/deletion/context-only rules, explicit passKeySlot, ANY, bidi passes with mirror attributes, a rule-less CollisionFix pass before passes with rules)')],
+ 'C15': [('text', '(every third one with passes under pass-level feature tests, every fifth with a collision-fixing pass)', '(every third one with passes under pass-level feature tests - nested ifs and if/elseif/else chains, whose rules are visible in the rendered text and whose pass-constraint code must be the conjunction of the tests -, every fifth with a collision-fixing pass, justification values beyond 16 bits)')],
+ 'C16': [('text', 'for generated feature and language tables over input fonts', 'for generated feature and language tables (language ids spelled 1036, x040C and 0x040C; boolean features with and without a declared default) over input fonts (Unicode- and symbol-encoded)')],
+ 'C17': [('text', 'resolves every glyphid()/unicode()/U+/range/postscript() reference', 'resolves every glyphid()/unicode()/U+/codepoint(\'c\' | "str" | a..b)/range/postscript()/pseudo(glyph, codepoint) reference')],
+ 'C18': [('text', '(include file, object-like and function-like macros', '(include files nested in subdirectories, #if / #elif / #else ladders, CR LF line endings, object-like and function-like macros'),
+  ('text', '(7 cases incl. #error, stray #endif', '(14 cases incl. #error, fatal buffer overflows, stray #endif')],
+ 'C19': [('text', 'same string, ./, absolute, symbolic link, hard link)', 'same string, ./, absolute, symbolic link, hard link; the output omitted, with the derived name in dotted directories / dotted file names and with the derived name being the linked input itself)')],
+ 'C20': [('text', '(simple and composite glyphs, all glyf flag forms)', '(simple glyphs in all glyf flag forms; composites with offsets, nested composites, components with one scale or separate x/y scales incl. mirrored ones, each scaled coordinate cut to an integer toward zero as TtfUtil does)'),
+  ('note', 'float32 rounding of the compiler is not modelled.', 'float32 rounding of the compiler is not modelled (generated scales are multiples of 1/8, exact in float); 2x2 component transforms are not modelled (glyph skipped, counted).')]}
+for _k, _l in AMENDS.items():
+    for _f, _a, _b in _l:
+        assert _a in CHECKS[_k][_f], (_k, _a)
+        CHECKS[_k][_f] = CHECKS[_k][_f].replace(_a, _b)
 def main():
     props = [json.loads(l) for l in open(os.path.join(VERIF, "properties.jsonl"))]
     NA = {}
